@@ -12,6 +12,7 @@ import (
 
 	"github.com/hashicorp/hcl/v2"
 	"github.com/hashicorp/hcl/v2/ext/dynblock"
+	"github.com/hashicorp/hcl/v2/ext/userfunc"
 	"github.com/hashicorp/hcl/v2/hcldec"
 	"github.com/hashicorp/hcl/v2/hclsyntax"
 	"github.com/hashicorp/hcl/v2/hclwrite"
@@ -221,6 +222,11 @@ func mustBody(src string, json bool) hcl.Body {
 		panic(diags.Error())
 	}
 	return f.Body
+}
+
+type sharedFuncs struct {
+	funcs map[string]function.Function
+	e     hclsyntax.Expression
 }
 
 type sharedSchema struct {
@@ -467,9 +473,58 @@ func All() []Driver {
 			}
 			return strings.Join(out, "\n")
 		}})
+	// D16: one decoding specification (with every wrapper kind that evaluates something of its own:
+	// TransformExprSpec, TransformFuncSpec, DefaultSpec, ValidateSpec, RefineValueSpec) shared by
+	// goroutines that decode goroutine-specific bodies
+	ds = append(ds, Driver{Name: "D16-shared-spec-own-bodies-3", Doc: "hcldec.Decode / ImpliedType / Variables with one shared spec (Transform*, Default, Validate, Refine wrappers) on goroutine-specific bodies", Threads: 3, Points: "struct",
+		Setup: func() any {
+			attr := func(n string) hcldec.Spec { return &hcldec.AttrSpec{Name: n, Type: cty.DynamicPseudoType} }
+			return hcldec.Spec(hcldec.ObjectSpec{
+				"t": &hcldec.TransformExprSpec{Wrapped: attr("a"), Expr: mustExpr(`[v, "${v}-${k}", [for x in [v, v] : x]]`), VarName: "v",
+					TransformCtx: &hcl.EvalContext{Variables: map[string]cty.Value{"k": cty.StringVal("K")}}},
+				"f": &hcldec.TransformFuncSpec{Wrapped: attr("a"), Func: joinVarFn},
+				"d": &hcldec.DefaultSpec{Primary: attr("missing"), Default: attr("a")},
+				"c": &hcldec.ValidateSpec{Wrapped: attr("a"), Func: func(v cty.Value) hcl.Diagnostics { return nil }},
+				"r": &hcldec.RefineValueSpec{Wrapped: &hcldec.AttrSpec{Name: "a", Type: cty.Number}, Refine: func(b *cty.RefinementBuilder) *cty.RefinementBuilder { return b.NotNull() }},
+				"b": &hcldec.BlockListSpec{TypeName: "b", Nested: hcldec.ObjectSpec{
+					"t": &hcldec.TransformExprSpec{Wrapped: attr("a"), Expr: mustExpr(`v + 1`), VarName: "v"}}},
+			})
+		},
+		Thread: func(shared any, i int) string {
+			spec := shared.(hcldec.Spec)
+			body := mustBody(fmt.Sprintf("a = n + %d\nb {\n  a = %d\n}\nb {\n  a = n\n}\n", i, 10*i), false)
+			var out []string
+			for r := 0; r < 2; r++ {
+				v, d := hcldec.Decode(body, spec, ctxFor(i))
+				out = append(out, show(v, d))
+			}
+			out = append(out, hcldec.ImpliedType(spec).FriendlyName(), fmt.Sprintf("vars=%d", len(hcldec.Variables(body, spec))))
+			return strings.Join(out, "\n")
+		}})
+	// D17: functions declared in configuration (ext/userfunc) decoded once and called by every goroutine
+	// with goroutine-specific arguments, directly and nested
+	ds = append(ds, Driver{Name: "D17-userfunc-3", Doc: "user-defined functions (ext/userfunc) shared through the function table: addone(n) + twice(addone(n))", Threads: 3,
+		Setup: func() any {
+			body := mustBody("function \"addone\" {\n  params = [x]\n  result = x + 1\n}\nfunction \"twice\" {\n  params = [x]\n  variadic_param = rest\n  result = [x * 2, addone(x), rest]\n}\n", false)
+			var funcs map[string]function.Function
+			funcs, _, diags := userfunc.DecodeUserFunctions(body, "function", func() *hcl.EvalContext {
+				return &hcl.EvalContext{Functions: funcs}
+			})
+			if diags.HasErrors() {
+				panic(diags.Error())
+			}
+			return &sharedFuncs{funcs: funcs, e: mustExpr(`[addone(n), twice(addone(n), s, n), [for x in l[*].a : twice(x)]]`)}
+		},
+		Thread: func(shared any, i int) string {
+			sf := shared.(*sharedFuncs)
+			c := ctxFor(i)
+			c.Functions = sf.funcs
+			v, d := sf.e.Value(c)
+			return show(v, d)
+		}})
 	for i := range ds {
 		d := &ds[i]
-		body := strings.HasPrefix(d.Name, "D8-") || strings.HasPrefix(d.Name, "D13-") || strings.HasPrefix(d.Name, "D14-") || strings.HasPrefix(d.Name, "D15-") || strings.HasPrefix(d.Name, "D9-") || strings.HasPrefix(d.Name, "D11-")
+		body := strings.HasPrefix(d.Name, "D8-") || strings.HasPrefix(d.Name, "D16-") || strings.HasPrefix(d.Name, "D13-") || strings.HasPrefix(d.Name, "D14-") || strings.HasPrefix(d.Name, "D15-") || strings.HasPrefix(d.Name, "D9-") || strings.HasPrefix(d.Name, "D11-")
 		if d.Points == "" {
 			d.Points = "all"
 			if body {
